@@ -41,7 +41,7 @@ def main():
     ctx.thorough = args.tier == "thorough"
 
     # ---- 1 build
-    targets = list(getattr(mod, "LEAN_TARGETS", [f"AgpTpf.Properties.{prop}"])) + ["driver"]
+    targets = list(getattr(mod, "LEAN_TARGETS", [f"AgpTpf.Properties.{m.stem}" for m in common.prop_modules(prop)] or [f"AgpTpf.Properties.{prop}"])) + ["driver"]
     if args.model_only or os.environ.get("VERIF_MODEL_ONLY"):
         targets = ["driver"]
         args.model_only = True
@@ -75,6 +75,19 @@ def main():
     # ---- 2 audit
     aud = {"ok": True, "theorems": [], "axioms": {}, "forbidden": [], "log": "skipped (--model-only)"} if args.model_only else common.audit(prop) if prop_build_ok else {"ok": False, "theorems": [], "axioms": {}, "forbidden": [], "log": "build failed"}
     proof_ok = prop_build_ok and aud["ok"]
+    # thorough tier: re-check the compiled property module with the toolchain's independent checker
+    if ctx.tier == "thorough" and proof_ok and not args.model_only and not args.replay:
+        common.lake_lock()
+        try:
+            rc, lc_out = common.run(["lake", "env", "leanchecker"] + [f"AgpTpf.Properties.{m.stem}" for m in common.prop_modules(prop)], cwd=common.LEAN, timeout=1500)
+        finally:
+            common.lake_unlock()
+        aud["leanchecker"] = {"rc": rc, "log": lc_out[-600:]}
+        out.notes.append(f"leanchecker AgpTpf.Properties.{prop}: exit {rc}")
+        if rc != 0:
+            proof_ok = False
+            aud["ok"] = False
+            aud["log"] = (aud.get("log", "") + "\nleanchecker failed:\n" + lc_out[-1500:])
 
     # ---- real code
     try:
@@ -179,7 +192,7 @@ def write_evidence(mod, ctx, build, aud, proof_ok, nviol, known_hits, infra=None
     cov = {
         "obligations": max(len(thms), 1),
         "discharged": discharged,
-        "checker_cmd": f"cd lean && lake build AgpTpf.Properties.{ctx.prop} && lake env lean .lake/audit_{ctx.prop}.lean   (# print axioms of every theorem)",
+        "checker_cmd": f"cd lean && lake build " + " ".join(f"AgpTpf.Properties.{m.stem}" for m in common.prop_modules(ctx.prop)) + f" && lake env lean .lake/audit_{ctx.prop}.lean   (# print axioms of every theorem)",
         "trusted_base": ["Lean 4.33.0 kernel", "axioms used: " + (", ".join(axioms_used) or "none")] + list(getattr(mod, "TRUSTED", [])),
         "theorems": thms,
         "evaluations": out.evaluations,
